@@ -53,6 +53,15 @@ def run(ck):
             if k.startswith("r_eff"):
                 p[k] = rng.uniform(1.2, 3.0)
         cases.append({"renderer": "hybrid8", "N": N, "profile": T, "params": p, "psf_seed": rng.randint(0, 10**6), "shift": [rng.randint(-3, 3), rng.randint(-3, 3)]})
+    for i in range(1 if quick else 3):
+        N = rng.choice([42, 48])
+        T = "sersic_pointsource"
+        p = rand_params(rng, T, N)
+        p["flux"] = abs(p["flux"])
+        p["f_ps"] = rng.uniform(0.3, 0.7)
+        p["r_eff"] = rng.uniform(1.5, N / 12)
+        cases.append({"renderer": ["pixel", "fourier", "hybrid"][i % 3], "N": N, "profile": T, "params": p, "psf_seed": rng.randint(0, 10**6), "P": 24,
+                      "shift": [rng.randint(-3, 3), rng.randint(-3, 3)]})
     ck.log("implementation: %d transformed-input rendering pairs" % len(cases))
     import concurrent.futures as cf
     nsh = min(6, vlib.NCPU)
